@@ -6,6 +6,7 @@ import (
 	"bufio"
 	"fmt"
 	"go/types"
+	"golang.org/x/tools/go/ssa"
 	"os"
 	"path/filepath"
 	"regexp"
@@ -78,7 +79,7 @@ func LoadSpecs(root string, extra []string) *Specs {
 	sp := &Specs{Funcs: map[string]*FuncSpec{}, SpecFns: map[string]*SpecFn{}}
 	var files []string
 	filepath.Walk(root, func(p string, info os.FileInfo, err error) error {
-		if err == nil && !info.IsDir() && info.Name() == "verif_contracts.go" {
+		if err == nil && !info.IsDir() && strings.HasPrefix(info.Name(), "verif_contracts") && strings.HasSuffix(info.Name(), ".go") {
 			files = append(files, p)
 		}
 		return nil
@@ -751,6 +752,17 @@ func (e *specEnv) eval(x *SX) (Val, types.Type, error) {
 			pl := c.placeOfPointer(v, e.gtOf("&"+x.Name, v))
 			return Val{T: c.loadPlaceIn(e.st, pl), S: pl.Sort}, pl.GoType, nil
 		}
+		// package-level variable of the function's package
+		if g := e.lookupGlobal(x.Name); g != nil {
+			gv := c.val(g)
+			pl := gv.Place
+			t := c.loadPlaceIn(e.st, pl)
+			r := Val{T: t, S: pl.Sort, GT: pl.GoType}
+			if ti := c.E.tables[pl.Name]; ti != nil {
+				r.Table = ti
+			}
+			return r, pl.GoType, nil
+		}
 		return Val{}, nil, fmt.Errorf("unknown name %q", x.Name)
 	case "unary":
 		a, _, err := e.eval(x.Args[0])
@@ -788,6 +800,15 @@ func (e *specEnv) eval(x *SX) (Val, types.Type, error) {
 		}
 		if err != nil {
 			return Val{}, nil, err
+		}
+		if x.Op == "forall" {
+			var bv []string
+			for _, v := range x.Vars {
+				bv = append(bv, "q_"+v.Name)
+			}
+			if pats := inferPatterns(body, bv); pats != "" {
+				return Val{T: fmt.Sprintf("(forall (%s) (! %s%s))", strings.Join(binders, " "), body, pats), S: SBool}, nil, nil
+			}
 		}
 		return Val{T: fmt.Sprintf("(%s (%s) %s)", x.Op, strings.Join(binders, " "), body), S: SBool}, nil, nil
 	case "index":
@@ -1020,6 +1041,71 @@ var specUFs = map[string]builtinSig{
 	"ssub":       {[]Sort{SStr, SInt, SInt}, SStr},
 	"sconcat":    {[]Sort{SStr, SStr}, SStr},
 	"deepeq":     {[]Sort{SAny, SAny}, SBool},
+	"splitcount": {[]Sort{SStr, SStr}, SInt},
+	"splitpart":  {[]Sort{SStr, SStr, SInt}, SStr},
+}
+
+func (e *specEnv) lookupGlobal(name string) *ssa.Global {
+	f := e.c.F
+	if e.callee != nil {
+		f = e.callee
+	}
+	for f.Parent() != nil {
+		f = f.Parent()
+	}
+	pkg := f.Pkg
+	if pkg == nil && f.Origin() != nil {
+		pkg = f.Origin().Pkg
+	}
+	if pkg == nil {
+		return nil
+	}
+	if g, ok := pkg.Members[name].(*ssa.Global); ok {
+		return g
+	}
+	return nil
+}
+
+// pathMatch: tree.Path.Matches as a spec predicate over strings.Split parts
+func (e *specEnv) pathMatch(p, pat Val) string {
+	c := e.c
+	dot := c.strLit(".")
+	star := c.strLit("*")
+	c.declareFun("splitcount", []Sort{SStr, SStr}, SInt)
+	c.declareFun("splitpart", []Sort{SStr, SStr, SInt}, SStr)
+	if lit, ok := c.litContent(pat.T); ok {
+		parts := strings.Split(lit, ".")
+		c.literalSplitFacts(pat.T, lit)
+		var b strings.Builder
+		fmt.Fprintf(&b, "(and (= (splitcount %s %s) %d)", p.T, dot, len(parts))
+		for i, part := range parts {
+			if part == "*" {
+				continue
+			}
+			fmt.Fprintf(&b, " (= (splitpart %s %s %d) %s)", p.T, dot, i, c.strLit(part))
+		}
+		b.WriteString(")")
+		return b.String()
+	}
+	return fmt.Sprintf("(and (= (splitcount %s %s) (splitcount %s %s)) (forall ((qi Int)) (! (=> (and (<= 0 qi) (< qi (splitcount %s %s))) (or (= (splitpart %s %s qi) %s) (= (splitpart %s %s qi) (splitpart %s %s qi)))) :pattern ((splitpart %s %s qi)) :pattern ((splitpart %s %s qi)))))",
+		pat.T, dot, p.T, dot, p.T, dot, pat.T, dot, star, pat.T, dot, p.T, dot, pat.T, dot, p.T, dot)
+}
+
+// literalSplitFacts: parts of a literal path, computed by running strings.Split on the literal
+func (c *FnCtx) literalSplitFacts(term, lit string) {
+	key := "split|" + lit
+	if c.ufs[key] {
+		return
+	}
+	c.ufs[key] = true
+	dot := c.strLit(".")
+	c.declareFun("splitcount", []Sort{SStr, SStr}, SInt)
+	c.declareFun("splitpart", []Sort{SStr, SStr, SInt}, SStr)
+	parts := strings.Split(lit, ".")
+	c.gfact(fmt.Sprintf("(= (splitcount %s %s) %d)", term, dot, len(parts)))
+	for i, p := range parts {
+		c.gfact(fmt.Sprintf("(= (splitpart %s %s %d) %s)", term, dot, i, c.strLit(p)))
+	}
 }
 
 func (e *specEnv) evalCall(x *SX) (Val, types.Type, error) {
@@ -1034,8 +1120,12 @@ func (e *specEnv) evalCall(x *SX) (Val, types.Type, error) {
 	case "old":
 		saved := e.st
 		e.st = e.old
+		before := c.heapReads
 		v, t, err := arg(0)
 		e.st = saved
+		if err == nil && c.heapReads == before {
+			return v, t, fmt.Errorf("old(...) around an expression that reads no heap (write old(has(m,k)) / old(m[k]), not has(old(m),k))")
+		}
 		return v, t, err
 	case "len":
 		a, at, err := arg(0)
@@ -1148,6 +1238,42 @@ func (e *specEnv) evalCall(x *SX) (Val, types.Type, error) {
 			return Val{}, nil, err
 		}
 		return Val{T: fmt.Sprintf("(ite %s %s %s)", cnd.T, a.T, b.T), S: a.S}, at, nil
+	case "wf":
+		a, _, err := arg(0)
+		if err != nil {
+			return Val{}, nil, err
+		}
+		if a.S != SAny {
+			return Val{}, nil, fmt.Errorf("wf on non-any")
+		}
+		return Val{T: fmt.Sprintf("(anywf %s %s)", a.T, c.heapIn(e.st, "$wm")), S: SBool}, nil, nil
+	case "pathmatch":
+		p, _, err := arg(0)
+		if err != nil {
+			return Val{}, nil, err
+		}
+		pat, _, err := arg(1)
+		if err != nil {
+			return Val{}, nil, err
+		}
+		return Val{T: e.pathMatch(p, pat), S: SBool}, nil, nil
+	case "fn":
+		if len(x.Args) != 1 || x.Args[0].Op != "lit-str" {
+			return Val{}, nil, fmt.Errorf("fn(\"name\") expects a string literal")
+		}
+		name := x.Args[0].Name
+		if !strings.Contains(name, ".") {
+			k := e.c.Name
+			if e.callee != nil {
+				k = fnKey(e.callee)
+			}
+			name = strings.SplitN(k, ".", 2)[0] + "." + name
+		}
+		f := c.E.byKey[name]
+		if f == nil {
+			return Val{}, nil, fmt.Errorf("fn: no function %s", name)
+		}
+		return Val{T: fmt.Sprintf("%d", c.E.fnID(f)), S: SInt}, nil, nil
 	case "isErr":
 		a, _, err := arg(0)
 		if err != nil {
